@@ -425,8 +425,10 @@ pub fn seq_pop_front(s: &mut PushStack<i32>, m: &mut M) {
     let e = if m.len == 0 { None } else { Some(m.remove_idx(0)) };
     assert!(r == e, "pop_front returns the bottom element or None");
 }
-pub fn seq_yank(s: &mut PushStack<i32>, m: &mut M) {
-    let i: usize = kani::any();
+/// positions of yank / shove / remove in generated sequences are concrete (drawn by the generator): two
+/// symbolic positions in a row are two memmoves of symbolic size; the one-step obligations above keep
+/// the position fully symbolic.
+pub fn seq_yank(s: &mut PushStack<i32>, m: &mut M, i: usize) {
     s.yank(i);
     if i < m.len {
         let k = m.len - 1 - i;
@@ -434,8 +436,7 @@ pub fn seq_yank(s: &mut PushStack<i32>, m: &mut M) {
         m.push(x);
     }
 }
-pub fn seq_shove(s: &mut PushStack<i32>, m: &mut M) {
-    let i: usize = kani::any();
+pub fn seq_shove(s: &mut PushStack<i32>, m: &mut M, i: usize) {
     s.shove(i);
     if i < m.len {
         let x = m.pop().unwrap();
@@ -443,20 +444,11 @@ pub fn seq_shove(s: &mut PushStack<i32>, m: &mut M) {
         m.insert_idx(k, x);
     }
 }
-/// `in_range` is concrete (chosen by the generator) so that the length stays concrete.
-pub fn seq_remove(s: &mut PushStack<i32>, m: &mut M, in_range: bool) {
-    let i: usize = kani::any();
-    if in_range {
-        if m.len == 0 {
-            return;
-        }
-        kani::assume(i < m.len);
-        s.remove(i);
+pub fn seq_remove(s: &mut PushStack<i32>, m: &mut M, i: usize) {
+    s.remove(i);
+    if i < m.len {
         let k = m.len - 1 - i;
         m.remove_idx(k);
-    } else {
-        kani::assume(i >= m.len);
-        s.remove(i);
     }
 }
 pub fn seq_replace(s: &mut PushStack<i32>, m: &mut M) {
